@@ -44,6 +44,7 @@ class Profile:
         self.final_order_p = kw.get("final_order_p", 0.25)
         self.max_join_rows = kw.get("max_join_rows", 60)
         self.use_uid = kw.get("use_uid", True)
+        self.self_join_p = kw.get("self_join_p", 0.15)
 
 
 class St:
@@ -504,7 +505,12 @@ class Gen:
 
     def step_join(self, st, depth_left):
         rng = self.rng
-        right = self.pipeline_state(max(0, min(2, depth_left - 1)), allow_binary=False)
+        if rng.random() < getattr(self.p, "self_join_p", 0.0):
+            # the right side is a further-extended copy of the prefix itself (shared sub-DAG)
+            right = self.pipeline_state(rng.randint(0, 2), allow_binary=False, start=St(st.node, st.frame, st.kinds))
+            self.cnt("self_join")
+        else:
+            right = self.pipeline_state(max(0, min(2, depth_left - 1)), allow_binary=False)
         jt = rng.choice(self.p.jointypes)
         common = [c for c in st.frame.columns if c in right.frame.columns and st.kinds[c] == right.kinds[c]]
         mism = [c for c in st.frame.columns if c in right.frame.columns and st.kinds[c] != right.kinds[c]]
